@@ -141,3 +141,26 @@ Example C10_T8_example :
   match qrun LidarDriverImpl_packetPut_effects (mk_pm s 0 None 0) with Go m => q_stuffed (p_s m) = [0] /\ g_clears (p_s m) = 0 /\ p_sz m = 1 | _ => False end.
 Proof. vm_compute. repeat split; reflexivity. Qed.
 
+(* T9: the queue class itself on the current source. push(), pop(), popWait() and clear() of utility/sync_queue.hpp (default build) are
+   regenerated as statement trees and interpreted over a queue with its mutex (Proofs/SyncQueueCode.v): every access to queue_ happens
+   while the mutex is held and the mutex is never taken twice (else the tree does not interpret), it is released before push() notifies;
+   and the operations are the atomic steps this model assumes: push appends and returns the size it saw, waking the consumer exactly
+   when the queue was empty; pop takes the oldest item or returns null; popWait does so on whatever the queue holds when its wait
+   returns; clear drops everything *)
+From RS Require Import Proofs.SyncQueueCode.
+Theorem C10_T9_push_code after_wait q x :
+  exists m, sqrun after_wait SyncQueue_push_effects (idle q x) = Ret m ret_size /\
+            k_q m = q ++ [x] /\ k_size m = length q + 1 /\ k_notified m = (match q with [] => true | _ => false end) /\ k_locked m = false.
+Proof. exact (push_code after_wait q x). Qed.
+Print Assumptions C10_T9_push_code.
+Theorem C10_T9_pop_code after_wait q x :
+  exists m, sqrun after_wait SyncQueue_pop_effects (idle q x) = Ret m ret_value /\
+            match q with [] => k_value m = None /\ k_q m = [] | y :: r => k_value m = Some y /\ k_q m = r end /\ k_locked m = true.
+Proof. exact (pop_code after_wait q x). Qed.
+Theorem C10_T9_popWait_code after_wait q x :
+  exists m, sqrun after_wait SyncQueue_popWait_effects (idle q x) = Ret m ret_value /\
+            match after_wait with [] => k_value m = None /\ k_q m = [] | y :: r => k_value m = Some y /\ k_q m = r end /\ k_locked m = true.
+Proof. exact (popWait_code after_wait q x). Qed.
+Theorem C10_T9_clear_code after_wait q x : exists m, sqrun after_wait SyncQueue_clear_effects (idle q x) = Go m /\ k_q m = [] /\ k_locked m = true.
+Proof. exact (clear_code after_wait q x). Qed.
+
